@@ -371,6 +371,38 @@ async fn run_task(
         .into();
     let cancel_rx = handle.cancel_tx.subscribe();
 
+    // The stream opens with the spawn frame, also for a request that is refused below.
+    let parsed_args: Result<ShellArgs, String> = serde_json::from_value(payload.args.clone())
+        .map_err(|err| format!("invalid args: {err}"));
+    let artifact_max_bytes = parsed_args
+        .as_ref()
+        .ok()
+        .and_then(|args| args.artifact_max_bytes)
+        .unwrap_or(config.artifact_max_bytes);
+    let max_bytes = parsed_args
+        .as_ref()
+        .ok()
+        .and_then(|args| args.max_bytes)
+        .unwrap_or(config.max_bytes);
+
+    let spawn_time_ms = now_ms();
+    emitter
+        .emit(EventKind::ToolTaskSpawned {
+            task_id: handle.task_id.clone(),
+            tool_name: payload.tool.clone(),
+            args: payload.args.clone(),
+            cwd: parsed_args.as_ref().ok().and_then(|args| args.cwd.clone()),
+            title: payload.title.clone(),
+            execution_mode,
+            origin_session_id: payload.origin_session_id.clone(),
+            artifacts: Some(json!({
+                "logs": handle.logs.refs_json(),
+                "artifact_max_bytes": artifact_max_bytes,
+                "max_bytes": max_bytes,
+            })),
+        })
+        .await;
+
     if payload.tool != "bash" && payload.tool != "shell" {
         fail_task(
             &handle,
@@ -382,17 +414,14 @@ async fn run_task(
         return;
     }
 
-    let args: ShellArgs = match serde_json::from_value(payload.args.clone()) {
+    let args: ShellArgs = match parsed_args {
         Ok(args) => args,
         Err(err) => {
-            fail_task(&handle, &emitter, format!("invalid args: {err}")).await;
+            fail_task(&handle, &emitter, err).await;
             finalize_snapshot(&handle, &snapshot_dir).await;
             return;
         }
     };
-
-    let artifact_max_bytes = args.artifact_max_bytes.unwrap_or(config.artifact_max_bytes);
-    let max_bytes = args.max_bytes.unwrap_or(config.max_bytes);
 
     if tokio::fs::create_dir_all(config.artifacts_blobs_dir())
         .await
@@ -407,24 +436,6 @@ async fn run_task(
         finalize_snapshot(&handle, &snapshot_dir).await;
         return;
     }
-
-    let spawn_time_ms = now_ms();
-    emitter
-        .emit(EventKind::ToolTaskSpawned {
-            task_id: handle.task_id.clone(),
-            tool_name: payload.tool.clone(),
-            args: payload.args.clone(),
-            cwd: args.cwd.clone(),
-            title: payload.title.clone(),
-            execution_mode,
-            origin_session_id: payload.origin_session_id.clone(),
-            artifacts: Some(json!({
-                "logs": handle.logs.refs_json(),
-                "artifact_max_bytes": artifact_max_bytes,
-                "max_bytes": max_bytes,
-            })),
-        })
-        .await;
 
     let _workspace_guard = workspace_lock.acquire().await;
     match execution_mode {
